@@ -109,8 +109,12 @@ def check_grid(case, rec):
     mn, mx, sil, imin, isil, mode = case["grid"]
     reject, nconds = grid_expect_reject(mn, mx, sil, imin, mode)
     try:
-        tk = tok.StreamTokenizer(tok.obj_valid, mn, mx, sil, init_min=imin,
-                                 init_max_silence=isil, mode=mode)
+        if (imin + isil) % 2:
+            # all seven arguments in their documented order
+            tk = tok.StreamTokenizer(tok.obj_valid, mn, mx, sil, imin, isil, mode)
+        else:
+            tk = tok.StreamTokenizer(tok.obj_valid, mn, mx, sil, init_min=imin,
+                                     init_max_silence=isil, mode=mode)
         raised = None
     except ValueError as exc:
         raised = exc
@@ -133,6 +137,18 @@ def explicit_cases():
         {"pat": "1111011", "p": [3, 4, 0, 0, 0, 2], "kind": "obj", "deliv": "cb"},
         {"grid": [1, 1, 0, 0, 0, 0]},
         {"grid": [1, 1, 1, 0, 0, 0]},
+        # neighbouring integers beyond 2**53 (a float cannot tell them apart) and far beyond any float
+        {"grid": [2**53 + 1, 2**53, 0, 0, 0, 0]}, {"grid": [2**53, 2**53 + 1, 0, 0, 0, 0]}, {"grid": [1, 2**53 + 1, 2**53, 0, 0, 0]},
+        {"grid": [1, 2**53, 2**53, 0, 0, 0]}, {"grid": [1, 2**53 + 1, 0, 2**53, 0, 0]}, {"grid": [1, 2**53, 0, 2**53 + 1, 0, 0]},
+        {"grid": [2**64 + 1, 2**64, 0, 0, 0, 0]}, {"grid": [1, 2**64 + 1, 2**64, 2**64, 0, 0]}, {"grid": [10**400 + 1, 10**400, 0, 0, 0, 0]},
+        {"grid": [1, 10**400, 10**400 - 1, 10**400 - 1, 0, 0]},
+        # the fifth and sixth positional arguments are init_min and init_max_silence, in that order
+        {"grid": [1, 4, 0, 4, 0, 0]}, {"grid": [1, 4, 0, 0, 7, 0]}, {"grid": [1, 4, 0, 3, 9, 0]}, {"grid": [2, 5, 1, 5, 2, 0]},
+        # tokens of tens of thousands of frames: max_length beyond 2**15 / 2**16, buffers beyond 4096 frames
+        {"pat": "1" * 33000 + "011", "p": [1, 40000, 0, 0, 0, 0], "kind": "obj", "deliv": "list"},
+        {"pat": "0" + "1" * 70001 + "0", "p": [2, 70000, 0, 0, 0, 0], "kind": "bytes", "deliv": "gen"},
+        {"pat": "1" * 12000, "p": [1, 5000, 0, 0, 0, 0], "kind": "bytes", "deliv": "list"},
+        {"pat": "1" * 9000 + "0" * 3 + "1" * 4097, "p": [1, 4097, 2, 0, 0, 4], "kind": "emptysil", "deliv": "cb"},
     ]
 
 
